@@ -1,6 +1,9 @@
 package c09
 
 import (
+	"os"
+	"strconv"
+
 	"verif/harness/core"
 )
 
@@ -19,6 +22,9 @@ func Check() *core.Check {
 			"async: each group of driver ops is one outermost call; ordering is modelled for the single FIFO job queue drained at the end of the outermost call",
 		},
 		Cases: func(tier string) int {
+			if v, err := strconv.Atoi(os.Getenv("C09_DEV_CASES")); err == nil && v > 0 {
+				return v // development aid only; registered commands do not set it
+			}
 			if tier == "thorough" {
 				return 600000
 			}
